@@ -144,21 +144,34 @@ func determineBlockEncryption(
 		}
 	}
 
-	// A field that has not been written before has no previous block to inherit the encryption from.
-	// If the document itself is encrypted, the field must be encrypted with the key of the document.
-	if fieldName.HasValue() && len(heads) == 0 {
-		compositeHeads := NewHeadSet(
-			txn.Headstore(),
-			keys.HeadstoreDocKey{DocID: docID, FieldID: core.COMPOSITE_NAMESPACE},
-		)
-		var err error
-		heads, _, err = compositeHeads.List(ctx)
-		if err != nil {
-			return nil, cidlink.Link{}, NewErrGettingHeads(err)
-		}
+	// otherwise we use the same encryption as the previous block
+	encBlock, encLink, err := inheritBlockEncryption(ctx, heads)
+	if err != nil || encBlock != nil || !fieldName.HasValue() {
+		return encBlock, encLink, err
 	}
 
-	// otherwise we use the same encryption as the previous block
+	// A field that has not been written before has no previous block to inherit the encryption from,
+	// and a field whose only previous blocks were merged from a node that wrote it without encryption
+	// has none that carries one. If the document itself is encrypted, the field must be encrypted
+	// with the key of the document.
+	compositeHeads := NewHeadSet(
+		txn.Headstore(),
+		keys.HeadstoreDocKey{DocID: docID, FieldID: core.COMPOSITE_NAMESPACE},
+	)
+	heads, _, err = compositeHeads.List(ctx)
+	if err != nil {
+		return nil, cidlink.Link{}, NewErrGettingHeads(err)
+	}
+	return inheritBlockEncryption(ctx, heads)
+}
+
+// inheritBlockEncryption returns the encryption of the first of the given heads that carries one.
+func inheritBlockEncryption(
+	ctx context.Context,
+	heads []cid.Cid,
+) (*Encryption, cidlink.Link, error) {
+	txn := datastore.CtxMustGetTxn(ctx)
+
 	for _, headCid := range heads {
 		prevBlockBytes, err := txn.Blockstore().AsIPLDStorage().Get(ctx, headCid.KeyString())
 		if err != nil {
